@@ -4,12 +4,13 @@ package main
 // metadata buffer (buffer.go, via the VerifBuffer hook).
 //
 // kinds (inputs are pure data, every runner recovers panics and runs under a watchdog):
-//   2001 (sel value)            sel 0/2 Stat, 1/3 Packet (2,3 = MarshalVTStrict) -> (bytes size)
+//   2001 (sel value)            sel bit 0: Stat/Packet, bits 1..5: encode path, bit 6: nil xattr values -> (bytes size)
 //   2002 (sel bytes)            sel 0 Stat, 1 Packet: UnmarshalVT into a fresh message
 //                               -> (#1 value unknown.. size) | (#0) error
 //   2003 (sel value)            generic runtime vs VT codec, both directions
 //   2004 (mode packets lens)    util.NewProtoStream SendMsg*, then RecvMsg* over a fragmenting reader
 //   2005 ((size seed)..)        fsutil.VerifBuffer
+//   2007 (mode ((packets lens)..) schedule)  several protoStreams in one process, interleaved (c20_streams.go)
 //   2006 (mode (stat..) [cut])  listing records (LE length + VT bytes) through the real buffer, parsed back (c20_listing.go)
 // Harness-detected anomalies are encoded as output values no model can produce:
 //   (#ffff msg) panic, (#fffe) hang, (#fffd what ..) aliasing / pooled-decode mismatch.
@@ -17,6 +18,7 @@ package main
 import (
 	"bytes"
 	"context"
+	"errors"
 	"fmt"
 	"io"
 	"runtime"
@@ -80,35 +82,109 @@ func guardedC20(f func() Sx) (out Sx) {
 }
 
 // ---------------------------------------------------------------- 2001 marshal
+// sel: bit 0 = 0 Stat / 1 Packet; bits 1..5 = encode path; bit 6 (64) = xattr values of length 0 are nil
+// instead of empty slices. Paths (every way the repository reaches an encoder):
+//   0 MarshalVT               1 Marshal() = MarshalVTStrict      2 MarshalToSizedBufferVT(buf[SizeVT])
+//   3 MarshalToSizedBufferVTStrict   4 MarshalToVT / Packet.MarshalTo(buf[Size()])   5 MarshalToVTStrict
+//   6 (Packet) util.NewProtoStream(...).SendMsg: Size() + MarshalTo, minus the 4-byte header
+// -> (bytes size): what the encoder wrote and what SizeVT()/Size() announced (for path 6 also the header
+// value must equal it), (#0) on an encoder error. A panic is recovered by guardedC20.
 func run2001(in Sx) Sx {
 	return guardedC20(func() Sx {
 		sel := in.L[0].Int()
+		path := (sel >> 1) & 31
+		nilVals := sel&64 != 0
+		fix := func(s *types.Stat) {
+			if s == nil || !nilVals {
+				return
+			}
+			for k, v := range s.Xattrs {
+				if len(v) == 0 {
+					s.Xattrs[k] = nil
+				}
+			}
+		}
 		var b []byte
 		var err error
 		var size int
-		switch sel {
-		case 0:
+		sized := func(enc func([]byte) (int, error)) {
+			buf := make([]byte, size)
+			var n int
+			n, err = enc(buf)
+			if err == nil {
+				if n < 0 || n > len(buf) {
+					panic(fmt.Sprintf("encoder reports %d bytes written into a %d-byte buffer", n, len(buf)))
+				}
+				b = buf[len(buf)-n:]
+			}
+		}
+		if sel&1 == 0 {
 			s := SxStat(in.L[1])
+			fix(s)
 			size = s.SizeVT()
-			b, err = s.MarshalVT()
-		case 2:
-			s := SxStat(in.L[1])
-			size = s.SizeVT()
-			b, err = s.Marshal() // MarshalVTStrict
-		case 1:
+			switch path {
+			case 0:
+				b, err = s.MarshalVT()
+			case 1:
+				b, err = s.Marshal()
+			case 2:
+				sized(s.MarshalToSizedBufferVT)
+			case 3:
+				sized(s.MarshalToSizedBufferVTStrict)
+			case 4:
+				sized(s.MarshalToVT)
+			default:
+				sized(s.MarshalToVTStrict)
+			}
+		} else {
 			p := SxPacket(in.L[1])
-			size = p.SizeVT()
-			b, err = p.MarshalVT()
-		default:
-			p := SxPacket(in.L[1])
+			fix(p.Stat)
 			size = p.Size()
-			b, err = p.Marshal()
+			switch path {
+			case 0:
+				b, err = p.MarshalVT()
+			case 1:
+				b, err = p.Marshal()
+			case 2:
+				sized(p.MarshalToSizedBufferVT)
+			case 3:
+				sized(p.MarshalToSizedBufferVTStrict)
+			case 4:
+				sized(p.MarshalTo)
+			case 5:
+				sized(p.MarshalToVTStrict)
+			default:
+				var wbuf bytes.Buffer
+				ws := util.NewProtoStream(context.Background(), nil, &wbuf)
+				err = ws.SendMsg(p)
+				if err == nil {
+					w := wbuf.Bytes()
+					if len(w) < 4 {
+						return L(N(0xfffd), S("short-frame"))
+					}
+					if h := int(uint32(w[0])<<24 | uint32(w[1])<<16 | uint32(w[2])<<8 | uint32(w[3])); h != size {
+						return L(N(0xfffd), S("header-differs-from-size"), NI(h), NI(size))
+					}
+					b = append([]byte{}, w[4:]...)
+				}
+			}
 		}
 		if err != nil {
 			return L(N(0))
 		}
-		return L(B(b), NI(size))
+		return L(B(append([]byte{}, b...)), NI(size))
 	})
+}
+
+// the generator itself must not die when the real encoder panics on a generated value
+func c20SafeBytes(f func() ([]byte, error)) (b []byte) {
+	defer func() {
+		if recover() != nil {
+			b = nil
+		}
+	}()
+	b, _ = f()
+	return b
 }
 
 // ---------------------------------------------------------------- 2002 unmarshal
@@ -127,8 +203,7 @@ func packetResult(p *types.Packet) string {
 var dirtyPacketBytes = func() []byte {
 	p := &types.Packet{Type: types.PACKET_DATA, ID: 77, Data: bytes.Repeat([]byte{0xEE}, 300),
 		Stat: &types.Stat{Path: "dirty", Mode: 0644, Xattrs: map[string][]byte{"user.dirty": []byte("x")}}}
-	b, _ := p.MarshalVT()
-	return b
+	return c20SafeBytes(p.MarshalVT)
 }()
 
 func mustParse(s string) Sx {
@@ -251,18 +326,30 @@ func run2003(in Sx) Sx {
 type fragReader struct {
 	data  []byte
 	lens  []int
-	cur   int // bytes left in the current piece; -1 = need next piece
-	given [][]byte
+	flags []int // per piece, parallel to lens: 0 = nil, 1 = io.EOF, 2 = errC20Injected, reported by the Read that exhausts the piece
+	cur   int   // bytes left in the current piece; -1 = need next piece
+	curF  int   // flag of the current piece
+	// eofWithData: the Read that delivers the final bytes of the data reports io.EOF in the same call
+	// (allowed by the io.Reader contract; iotest.DataErrReader, decompressors, HTTP bodies do it)
+	eofWithData bool
+	given       [][]byte
 }
+
+var errC20Injected = errors.New("c20: injected read error")
 
 func (r *fragReader) Read(p []byte) (int, error) {
 	if r.cur < 0 {
 		if len(r.data) == 0 {
 			return 0, io.EOF
 		}
+		r.curF = 0
 		if len(r.lens) > 0 {
 			r.cur = r.lens[0]
 			r.lens = r.lens[1:]
+			if len(r.flags) > 0 {
+				r.curF = r.flags[0]
+				r.flags = r.flags[1:]
+			}
 			if r.cur > len(r.data) {
 				r.cur = len(r.data)
 			}
@@ -277,17 +364,30 @@ func (r *fragReader) Read(p []byte) (int, error) {
 	copy(p, r.data[:n])
 	r.data = r.data[n:]
 	r.cur -= n
-	if r.cur == 0 {
+	var err error
+	if r.cur == 0 { // this Read exhausts the piece: its error comes with the data (not sticky)
 		r.cur = -1
+		switch r.curF {
+		case 1:
+			err = io.EOF
+		case 2:
+			err = errC20Injected
+		}
+		if err == nil && r.eofWithData && len(r.data) == 0 {
+			err = io.EOF
+		}
 	}
 	if n > 0 {
 		r.given = append(r.given, p[:n])
 	}
-	return n, nil
+	return n, err
 }
 
 // mode: 0 fresh Packet per RecvMsg; 1 one Packet, ResetVT before every RecvMsg (receive.go);
 //       bit 2 (4): the stream is truncated to `cut` bytes (4th input element)
+//       bit 3 (8): the reader reports io.EOF together with the final bytes of the (cut) stream
+// lens: a piece is #n (Read error nil) or (#n #flag): flag 1 = io.EOF, 2 = another error, reported by the
+//       Read that exhausts the piece, together with its bytes (a piece of length 0: a Read returning (0, err))
 // -> (full-stream (item..)) item = (packet) | (#0) for an error other than io.EOF (then stop)
 func run2004(in Sx) Sx {
 	return guardedC20(func() Sx {
@@ -308,10 +408,16 @@ func run2004(in Sx) Sx {
 			}
 		}
 		lens := make([]int, len(in.L[2].L))
+		flags := make([]int, len(in.L[2].L))
 		for i, x := range in.L[2].L {
-			lens[i] = x.Int()
+			if x.Kind == 'n' {
+				lens[i] = x.Int()
+			} else {
+				lens[i] = x.L[0].Int()
+				flags[i] = x.L[1].Int()
+			}
 		}
-		fr := &fragReader{data: append([]byte{}, stream...), lens: lens, cur: -1}
+		fr := &fragReader{data: append([]byte{}, stream...), lens: lens, flags: flags, cur: -1, eofWithData: mode&8 != 0}
 		rs := util.NewProtoStream(context.Background(), fr, nil)
 		var early []string
 		var got []*types.Packet
@@ -497,6 +603,18 @@ func genStat(r *Rng, big bool) *types.Stat {
 		}
 	}
 	return s
+}
+
+// xattr maps whose entries have empty values (sent as empty or, with sel bit 6, nil slices), empty keys, and mixtures
+var c20DirectedXattrs = []map[string][]byte{
+	{"user.empty": {}},
+	{"k": {}},
+	{"": {}},
+	{"": {1}},
+	{"user.a": {}, "user.b": []byte("x"), "user.c": {}},
+	{"user.a": []byte("v"), "user.b": {}},
+	{"a": {}, "b": {}, "c": {}, "d": {}},
+	{"user.full": []byte("value")},
 }
 
 var c20Types = []int32{0, 1, 2, 3, 4, 5, 127, 128, -1, 1<<31 - 1, -1 << 31, 300}
@@ -714,29 +832,46 @@ func hexClean(s string) []byte {
 func genC20(g *Gen) {
 	r := g.Rng
 
-	// ---- (1) structured values: marshal / size, (3) generic runtime
+	// ---- (1) structured values: marshal / size on EVERY encode path, (3) generic runtime
+	// directed first: xattr values that are empty or nil (and friends), on every path, alone and inside a Packet
+	for di, x := range c20DirectedXattrs {
+		s := &types.Stat{Path: "d", Mode: 0644, Xattrs: x}
+		if di%3 == 1 {
+			s = &types.Stat{Xattrs: x}
+		}
+		for path := 0; path < 6; path++ {
+			for _, nv := range []int{0, 64} {
+				g.Emit(0x2001, L(NI(path<<1|nv), StatSx(s)), true, "marshal-stat-directed-xattrs")
+			}
+		}
+		p := &types.Packet{Type: types.PACKET_STAT, Stat: s}
+		for path := 0; path < 7; path++ {
+			for _, nv := range []int{0, 64} {
+				g.Emit(0x2001, L(NI(path<<1|1|nv), PacketSx(p)), true, "marshal-packet-directed-xattrs")
+			}
+		}
+		g.Emit(0x2003, L(N(0), StatSx(s)), true, "generic-stat-directed-xattrs")
+	}
 	nVal := g.Vol(9000, 450000)
 	for i := 0; i < nVal; i++ {
 		big := i%200 == 0
+		nv := 0
+		if r.Chance(25) {
+			nv = 64
+		}
 		if r.Bool() {
 			s := genStat(r, big)
-			sel := 0
-			if r.Chance(25) {
-				sel = 2
-			}
+			sel := r.Intn(6)<<1 | nv
 			nt := len(s.Xattrs) > 0 || s.Size < 0 || s.Path != ""
-			g.Emit(0x2001, L(NI(sel), StatSx(s)), nt, "marshal-stat")
+			g.Emit(0x2001, L(NI(sel), StatSx(s)), nt, fmt.Sprintf("marshal-stat-path%d", sel>>1&31))
 			if i%2 == 0 {
 				g.Emit(0x2003, L(N(0), StatSx(s)), nt, "generic-stat")
 			}
 		} else {
 			p := genPacket(r, big)
-			sel := 1
-			if r.Chance(25) {
-				sel = 3
-			}
+			sel := r.Intn(7)<<1 | 1 | nv
 			nt := p.Stat != nil || len(p.Data) > 0
-			g.Emit(0x2001, L(NI(sel), PacketSx(p)), nt, "marshal-packet")
+			g.Emit(0x2001, L(NI(sel), PacketSx(p)), nt, fmt.Sprintf("marshal-packet-path%d", sel>>1&31))
 			if i%2 == 0 {
 				g.Emit(0x2003, L(N(1), PacketSx(p)), nt, "generic-packet")
 			}
@@ -762,9 +897,9 @@ func genC20(g *Gen) {
 		sel := r.Intn(2)
 		var base []byte
 		if sel == 0 {
-			base, _ = genStat(r, false).MarshalVT()
+			base = c20SafeBytes(genStat(r, false).MarshalVT)
 		} else {
-			base, _ = genPacket(r, false).MarshalVT()
+			base = c20SafeBytes(genPacket(r, false).MarshalVT)
 		}
 		var b []byte
 		cls := ""
@@ -781,9 +916,9 @@ func genC20(g *Gen) {
 		case k == 2: // two encodings concatenated: merge semantics
 			var other []byte
 			if sel == 0 {
-				other, _ = genStat(r, false).MarshalVT()
+				other = c20SafeBytes(genStat(r, false).MarshalVT)
 			} else {
-				other, _ = genPacket(r, false).MarshalVT()
+				other = c20SafeBytes(genPacket(r, false).MarshalVT)
 			}
 			b = append(append([]byte{}, base...), other...)
 			cls = "bytes-concat-merge"
@@ -887,7 +1022,12 @@ func genC20(g *Gen) {
 			cls += "-big"
 		}
 		g.Emit(0x2004, in, n >= 2 || big, cls)
+		// the same packets and fragmentation through a reader that reports io.EOF together with the final bytes
+		in.L[0] = NI(in.L[0].Int() | 8)
+		g.Emit(0x2004, in, n >= 1, cls+"+eof-with-data")
 	}
+	c20GenReaderBehaviour(g) // errors reported together with data, at and off buffer boundaries (c20_reader.go)
+	c20GenStreams(g)         // several streams in one process, RecvMsg calls interleaved by a gated reader (c20_streams.go)
 
 	// ---- (5) buffer
 	nBuf := g.Vol(150, 6000)
@@ -923,7 +1063,14 @@ func genC20(g *Gen) {
 	c20GenListing(g)
 
 	// ---- supporting test (not a theorem): allocation of UnmarshalVT on adversarial input
-	g.Note("alloc_probe", allocProbe())
+	g.Note("alloc_probe", func() (m map[string]interface{}) {
+		defer func() {
+			if r := recover(); r != nil {
+				m = map[string]interface{}{"panic": fmt.Sprint(r)}
+			}
+		}()
+		return allocProbe()
+	}())
 }
 
 // allocProbe measures what UnmarshalVT allocates for (a) a valid 64 KiB stat and (b) an input of
@@ -938,7 +1085,7 @@ func allocProbe() map[string]interface{} {
 		runtime.ReadMemStats(&m1)
 		return m1.TotalAlloc - m0.TotalAlloc, len(s.Xattrs), err
 	}
-	valid, _ := (&types.Stat{Path: "p", Xattrs: map[string][]byte{"user.big": make([]byte, 64<<10)}}).MarshalVT()
+	valid := c20SafeBytes((&types.Stat{Path: "p", Xattrs: map[string][]byte{"user.big": make([]byte, 64<<10)}}).MarshalVT)
 	m := 4000
 	tail := []byte{0x0a}
 	T := 36000
